@@ -297,6 +297,9 @@ class CallMixin:
             res = NoneV()
         for gname, gts in c.ghost_out.items():
             post.locals[gname] = self.fresh_val('go_' + gname, parse_type(gts), st)
+        for cid, tv in st.cells.items():
+            if cid not in post.cells:
+                post.cells[cid] = tv
         for e in c.all_ensures():
             st.assume(self.spec_bool(e, post, sub))
         yield st, res
